@@ -26,6 +26,7 @@ type KeyedMutex[T comparable] struct {
 
 func (km *KeyedMutex[T]) LockKey(key T) {
 	m, _ := km.m.LoadOrStore(key, &sync.Mutex{})
+	verifLock(100, m)
 	m.Lock()
 }
 
@@ -57,6 +58,7 @@ type KeyedRWMutex[T comparable] struct {
 
 func (km *KeyedRWMutex[T]) LockKey(key T) {
 	m, _ := km.m.LoadOrStore(key, &sync.RWMutex{})
+	verifRWLock(101, m)
 	m.Lock()
 }
 
@@ -72,6 +74,7 @@ func (km *KeyedRWMutex[T]) UnlockKey(key T) {
 
 func (km *KeyedRWMutex[T]) RLockKey(key T) {
 	m, _ := km.m.LoadOrStore(key, &sync.RWMutex{})
+	verifRLock(102, m)
 	m.RLock()
 }
 
